@@ -1220,6 +1220,45 @@ func (o *c15Oracle) yaml(g *genetics.Genome) {
 	}
 }
 
+// yamlSequence: ONE YAML genome writer used for several genomes, each read back before the next is written (a
+// buffer used as a pipe): every genome must read back equal, whatever was written through the same writer before
+func (o *c15Oracle) yamlSequence(gs []*genetics.Genome) {
+	var caps []c15Genome
+	for _, g := range gs {
+		caps = append(caps, c15Capture(g))
+	}
+	in := map[string]interface{}{"kind": "yaml-sequence", "genomes": caps}
+	var buf bytes.Buffer
+	w, err := genetics.NewGenomeWriter(&buf, genetics.YAMLGenomeEncoding)
+	if err != nil {
+		return
+	}
+	for i, g := range gs {
+		buf.Reset()
+		if err, _ := c15Guard(func() error { return w.WriteGenome(g) }); err != nil {
+			o.fail("yaml-sequence write-error", fmt.Sprintf("the YAML writer failed on genome %d of a sequence", i), in, err.Error(), "nil error")
+			return
+		}
+		var g2 *genetics.Genome
+		err, _ := c15Guard(func() error {
+			rd, e := genetics.NewGenomeReader(bytes.NewReader(buf.Bytes()), genetics.YAMLGenomeEncoding)
+			if e != nil {
+				return e
+			}
+			g2, e = rd.Read()
+			return e
+		})
+		if err != nil {
+			o.fail("yaml-sequence read-error", fmt.Sprintf("genome %d written through a reused YAML writer is rejected by the reader", i), in, err.Error(), "nil error")
+			return
+		}
+		if d := c15Diff(c15Capture(g), c15Capture(g2), false, true); d != "" {
+			o.fail("yaml-sequence "+strings.Fields(d)[0], fmt.Sprintf("genome %d written through a reused YAML writer does not read back equal", i), in, d, "identical genome")
+			return
+		}
+	}
+}
+
 func (o *c15Oracle) organism(spec c15Org) {
 	in := map[string]interface{}{"kind": "organism", "organism": spec}
 	org := c15MakeOrg(spec)
@@ -1660,6 +1699,43 @@ func (o *c15Oracle) experiment(spec c15ExpSpec) {
 		}
 		o.fail("experiment-roundtrip "+first, "a saved experiment does not restore the same trials, generations, champions or derived statistics", in,
 			map[string]interface{}{first: b[first]}, map[string]interface{}{first: a[first]})
+		return
+	}
+	// reading into an Experiment value that was used before (other trials, whose statistics were already asked
+	// for) must restore the same experiment: nothing of the previous contents may show through
+	var decoy c15ExpSpec
+	if json.Unmarshal([]byte(c15JSON(spec)), &decoy) != nil {
+		return
+	}
+	decoy.Id, decoy.Name = spec.Id+1, spec.Name+" (previous contents)"
+	decoy.Trials = append(decoy.Trials, decoy.Trials...)
+	for ti := range decoy.Trials {
+		for gi := range decoy.Trials[ti].Gens {
+			g := &decoy.Trials[ti].Gens[gi]
+			g.Solved, g.WinnerNodes, g.WinnerGenes, g.WinnerEvals, g.Diversity = true, g.WinnerNodes+1000, g.WinnerGenes+2000, g.WinnerEvals+3000, g.Diversity+7
+		}
+	}
+	used := c15MakeExp(decoy)
+	_ = c15ExpView(used) // asks every statistic once: whatever the accessors cache is now in place
+	if err, _ := c15Guard(func() error { return used.Read(bytes.NewReader(buf.Bytes())) }); err != nil {
+		o.fail("experiment-read-into-used-value error", "Experiment.Read into a previously used Experiment value failed", in, err.Error(), "nil error")
+		return
+	}
+	if c := c15ExpView(used); c15JSON(a) != c15JSON(c) {
+		first := "?"
+		keys := make([]string, 0, len(a))
+		for k := range a {
+			keys = append(keys, k)
+		}
+		sort.Strings(keys)
+		for _, k := range keys {
+			if c15JSON(a[k]) != c15JSON(c[k]) {
+				first = k
+				break
+			}
+		}
+		o.fail("experiment-read-into-used-value "+first, "a saved experiment read into a previously used Experiment value shows data of the previous contents", in,
+			map[string]interface{}{first: c[first]}, map[string]interface{}{first: a[first]})
 	}
 }
 
@@ -1834,6 +1910,17 @@ func runC15(r *Run) error {
 		o.fmns(c15Capture(g), rng.Int63())
 		if ytext, err := c.caseYamlWrite(g); err == nil {
 			c.caseYamlRead(ytext)
+		}
+	}
+	// one YAML writer for a sequence of genomes: modular and plain ones interleaved, in both orders
+	{
+		mods := c15Modular(rng)
+		for k := 0; k < r.N(4, 40) && len(mods) > 0 && len(evolved) > 0; k++ {
+			seq := []*genetics.Genome{evolved[rng.Intn(len(evolved))], mods[rng.Intn(len(mods))], evolved[rng.Intn(len(evolved))], mods[rng.Intn(len(mods))], evolved[rng.Intn(len(evolved))]}
+			if k%2 == 1 {
+				seq = seq[1:]
+			}
+			o.yamlSequence(seq)
 		}
 	}
 	// modular genomes: YAML keeps the modules, the plain format drops them
@@ -2058,6 +2145,12 @@ func replayC15(r *Run, input []byte) error {
 		o.strconvRoundTrip([]float64{c15pf(head.Value)})
 	case "registry":
 		c15Registry(r)
+	case "yaml-sequence":
+		gs := make([]*genetics.Genome, len(head.Genomes))
+		for i := range head.Genomes {
+			gs[i] = c15Build(head.Genomes[i])
+		}
+		o.yamlSequence(gs)
 	case "fmns-net", "fmns-solver", "fmns-doc":
 		return c15FmnsReplay(r, input)
 	default:
